@@ -294,7 +294,7 @@ V2("C03-criterion-first-block", ["C03", "C04"], [
     dict(module="gmm", old="average_output = float(statistics.log_likelihood / statistics.t)", new="average_output = float(first_ll / first_t)"),
   ], "criterion taken from the first block only: chunk-dependent stopping")
 V("C03-weights-unnormalised", ["C03", "C13"], "gmm", "machine.weights = thresholded_n / statistics.t", "machine.weights = thresholded_n", "ML weights are raw counts (not on the simplex)")
-V("C03-means-not-divided", ["C03", "C15"], "gmm", "machine.means = statistics.sum_px / thresholded_n[:, None]", "machine.means = statistics.sum_px / statistics.t", "means divided by the sample count instead of the responsibilities")
+V("C03-means-not-divided", ["C03"], "gmm", "machine.means = statistics.sum_px / thresholded_n[:, None]", "machine.means = statistics.sum_px / statistics.t", "means divided by the sample count instead of the responsibilities")
 V("C03-variance-mean-unsquared", ["C03", "C15"], "gmm", "machine.variances = statistics.sum_pxx / thresholded_n[:, None] - np.power(machine.means, 2)", "machine.variances = statistics.sum_pxx / thresholded_n[:, None] - machine.means", "mean subtracted unsquared from E[x^2]")
 V("C03-switches-swapped", ["C03"], "gmm", "update_means=machine.update_means, update_variances=machine.update_variances", "update_means=machine.update_variances, update_variances=machine.update_means", "update switches crossed in the wrapper")
 V("C03-store-under-wrong-switch", ["C03"], "gmm",
@@ -381,10 +381,10 @@ V("C02-fold-skips-first", ["C02", "C04"], "gmm", "statistics = functools.reduce(
 V("C02-t-from-n", ["C02"], "gmm", "statistics.t = data.shape[0]", "statistics.t = len(data)", "sample count via len()", kind="benign")
 
 # ----------------------------------------------------------------------------- C13
-V("C13-clip-removed", ["C13", "C03"], "gmm", "thresholded_n = np.clip(statistics.n, mean_var_update_threshold, None)", "thresholded_n = statistics.n", "count floor removed from the ML M-step: 0/0 for a component without responsibility")
+V("C13-clip-removed", ["C13"], "gmm", "thresholded_n = np.clip(statistics.n, mean_var_update_threshold, None)", "thresholded_n = statistics.n", "count floor removed from the ML M-step: 0/0 for a component without responsibility")
 V("C13-clip-upper-only", ["C13"], "gmm", "thresholded_n = np.clip(statistics.n, mean_var_update_threshold, None)", "thresholded_n = np.clip(statistics.n, None, mean_var_update_threshold)", "clip bounds swapped: counts capped, not floored")
 V("C13-clip-as-maximum", ["C13", "C03"], "gmm", "thresholded_n = np.clip(statistics.n, mean_var_update_threshold, None)", "thresholded_n = np.maximum(statistics.n, mean_var_update_threshold)", "floor spelled with np.maximum", kind="benign")
-V("C13-means-raw-n", ["C13", "C03"], "gmm", "machine.means = statistics.sum_px / thresholded_n[:, None]", "machine.means = statistics.sum_px / statistics.n[:, None]", "ML means divide by the raw counts")
+V("C13-means-raw-n", ["C13"], "gmm", "machine.means = statistics.sum_px / thresholded_n[:, None]", "machine.means = statistics.sum_px / statistics.n[:, None]", "ML means divide by the raw counts")
 V("C13-map-means-raw-n", ["C13", "C05"], "gmm", "statistics.sum_px / n_threshold[:, None]", "statistics.sum_px / statistics.n[:, None]", "MAP means divide by the raw counts (NaN * 0 survives the blend)", kind="benign")
 V("C13-map-where-removed", ["C13", "C05"], "gmm", "machine.variances = np.where(statistics.n[:, None] < mean_var_update_threshold, prior_norm_variances, new_variances)", "machine.variances = new_variances", "no-evidence fallback of the MAP variances removed: alpha*sum_pxx/n is 0/0")
 V("C13-relevance-dropped", ["C13", "C05"], "gmm", "alpha = statistics.n / (statistics.n + relevance_factor)", "alpha = statistics.n / statistics.n", "alpha = n/n: 0/0 for an empty component")
@@ -404,13 +404,13 @@ V("C13-new-division-by-count", ["C13"], "gmm", "        machine.weights = thresh
 # ----------------------------------------------------------------------------- C05
 V("C05-alpha-n-times-r", ["C05"], "gmm", "alpha = statistics.n / (statistics.n + relevance_factor)", "alpha = statistics.n / (statistics.n * relevance_factor)", "alpha = n/(n*r)")
 V("C05-alpha-inverted", ["C05"], "gmm", "alpha = statistics.n / (statistics.n + relevance_factor)", "alpha = relevance_factor / (statistics.n + relevance_factor)", "alpha and 1-alpha exchanged")
-V("C05-mean-not-divided", ["C05", "C15"], "gmm", "np.multiply(alpha[:, None], statistics.sum_px / n_threshold[:, None])", "np.multiply(alpha[:, None], statistics.sum_px)", "data term of the mean blend not divided by the counts")
+V("C05-mean-not-divided", ["C05"], "gmm", "np.multiply(alpha[:, None], statistics.sum_px / n_threshold[:, None])", "np.multiply(alpha[:, None], statistics.sum_px)", "data term of the mean blend not divided by the counts")
 V("C05-blend-swapped", ["C05"], "gmm", "new_means = np.multiply(alpha[:, None], statistics.sum_px / n_threshold[:, None]) + np.multiply(1 - alpha[:, None], machine.ubm.means)", "new_means = np.multiply(1 - alpha[:, None], statistics.sum_px / n_threshold[:, None]) + np.multiply(alpha[:, None], machine.ubm.means)", "alpha on the prior, 1-alpha on the data")
 V("C05-blend-operator-form", ["C05"], "gmm", "new_means = np.multiply(alpha[:, None], statistics.sum_px / n_threshold[:, None]) + np.multiply(1 - alpha[:, None], machine.ubm.means)", "new_means = alpha[:, None] * (statistics.sum_px / n_threshold[:, None]) + machine.ubm.means - alpha[:, None] * machine.ubm.means", "blend written with operators and distributed", kind="benign")
 V("C05-weights-prior-unweighted", ["C05"], "gmm", "machine.weights = alpha * ml_weights + (1 - alpha) * machine.ubm.weights", "machine.weights = alpha * ml_weights + machine.ubm.weights", "prior weights not weighted by 1-alpha")
 V("C05-variance-mean-cubed", ["C05", "C15"], "gmm", "+ (1 - alpha[:, None]) * (machine.ubm.variances + machine.ubm.means) - np.power(machine.means, 2)", "+ (1 - alpha[:, None]) * (machine.ubm.variances + machine.ubm.means ** 3) - np.power(machine.means, 2)", "a *different* dimension error at the known-finding site")
 V("C05-variance-mean2-weighted", ["C05"], "gmm", "+ (1 - alpha[:, None]) * (machine.ubm.variances + machine.ubm.means) - np.power(machine.means, 2)", "+ (1 - alpha[:, None]) * (machine.ubm.variances + machine.ubm.means - np.power(machine.means, 2))", "adapted mean^2 inside the (1-alpha) bracket")
-V("C05-means-fallback-removed", ["C05", "C13"], "gmm", "machine.means = np.where(statistics.n[:, None] < mean_var_update_threshold, machine.ubm.means, new_means)", "machine.means = new_means", "no-evidence fallback of the means removed", kind="break")
+V("C05-means-fallback-removed", ["C05"], "gmm", "machine.means = np.where(statistics.n[:, None] < mean_var_update_threshold, machine.ubm.means, new_means)", "machine.means = new_means", "no-evidence fallback of the means removed", kind="break")
 V("C05-fallback-to-data", ["C05"], "gmm", "machine.means = np.where(statistics.n[:, None] < mean_var_update_threshold, machine.ubm.means, new_means)", "machine.means = np.where(statistics.n[:, None] < mean_var_update_threshold, statistics.sum_px, new_means)", "no-evidence fallback is not the prior mean")
 V("C05-prior-aliased", ["C05", "C19"], "gmm", "            self.means = copy.deepcopy(self.ubm.means)\n            self.variance_thresholds = copy.deepcopy(self.ubm.variance_thresholds)\n            self.variances = copy.deepcopy(self.ubm.variances)\n            self.weights = copy.deepcopy(self.ubm.weights)\n        else:\n            self.weights = np.full", "            self.means = self.ubm.means\n            self.variance_thresholds = copy.deepcopy(self.ubm.variance_thresholds)\n            self.variances = copy.deepcopy(self.ubm.variances)\n            self.weights = copy.deepcopy(self.ubm.weights)\n        else:\n            self.weights = np.full", "constructor aliases the prior's means")
 V("C05-prior-crossed", ["C05"], "gmm", "            self.variances = copy.deepcopy(self.ubm.variances)\n            self.weights = copy.deepcopy(self.ubm.weights)\n        else:\n            logger.debug", "            self.variances = copy.deepcopy(self.ubm.variance_thresholds)\n            self.weights = copy.deepcopy(self.ubm.weights)\n        else:\n            logger.debug", "variances initialised from the prior's floors")
@@ -436,7 +436,7 @@ V("C20-vectorised-distance", ["C20"], "kmeans", "        distances = []\n       
 # ----------------------------------------------------------------------------- C10
 V("C10-fnorm-plus", ["C10"], "ivector", "    fnorm = stats.sum_px - stats.n[:, None] * ubm_means", "    fnorm = stats.sum_px + stats.n[:, None] * ubm_means", "N m added in the projection's linear term")
 V("C10-estep-fnorm-plus", ["C10"], "ivector", "        Fnorm = Fij - Nij[:, None] * machine.ubm.means", "        Fnorm = Fij + Nij[:, None] * machine.ubm.means", "N m added in the E-step's Fnorm")
-V("C10-fnorm-unweighted", ["C10", "C15"], "ivector", "    fnorm = stats.sum_px - stats.n[:, None] * ubm_means", "    fnorm = stats.sum_px - ubm_means", "UBM mean not weighted by the counts", kind="break")
+V("C10-fnorm-unweighted", ["C10"], "ivector", "    fnorm = stats.sum_px - stats.n[:, None] * ubm_means", "    fnorm = stats.sum_px - ubm_means", "UBM mean not weighted by the counts", kind="break")
 V("C10-snorm-cross-plus", ["C10"], "ivector", "Snorm = Sij - 2 * Fij * machine.ubm.means + Nij[:, None] * machine.ubm.means * machine.ubm.means", "Snorm = Sij + 2 * Fij * machine.ubm.means + Nij[:, None] * machine.ubm.means * machine.ubm.means", "cross term of Snorm added")
 V("C10-sigma-squared", ["C10", "C15"], "ivector", "Tct_sigmacInv = T.transpose(0, 2, 1) / sigma[:, None, :]", "Tct_sigmacInv = T.transpose(0, 2, 1) / sigma[:, None, :] ** 2", "T' divided by sigma^2")
 V("C10-sigma-multiplied", ["C10", "C15"], "ivector", "Tct_sigmacInv = T.transpose(0, 2, 1) / sigma[:, None, :]", "Tct_sigmacInv = T.transpose(0, 2, 1) * sigma[:, None, :]", "T' multiplied by sigma")
@@ -460,7 +460,7 @@ V("C19-stats-normalised-inplace", ["C19"], "linear_scoring", "    sum_px = np.ar
 V("C19-labels-sorted-inplace", ["C19"], "wccn", "        possible_labels = set(y)", "        y.sort()\n        possible_labels = set(y)", "label sequence sorted in place")
 V("C19-centroids-from-data-view", ["C19"], "kmeans", "self.centroids_ = k_init(X=data, n_clusters=self.n_clusters, init=init,", "self.centroids_ = data[:self.n_clusters] if False else k_init(X=data, n_clusters=self.n_clusters, init=init,", "contrived", kind="skip")
 V("C19-wccn-subtract-alias", ["C19"], "whitening", "        self.input_subtract = mu", "        self.input_subtract = X[0]", "stored centre is a view of the first training row")
-V("C19-map-means-alias-stats", ["C19"], "gmm", "        machine.means = statistics.sum_px / thresholded_n[:, None]", "        machine.means = statistics.sum_px\n        machine.means /= thresholded_n[:, None]", "ML means computed in place on the (internal, fresh) statistics' first-order array", kind="benign")
+V("C19-map-means-alias-stats", ["C19"], "gmm", "        machine.means = statistics.sum_px / thresholded_n[:, None]", "        machine.means = statistics.sum_px\n        machine.means /= thresholded_n[:, None]", "contrived: transiently stores U*S into the means", kind="skip")
 V("C19-jfa-latent-shared", ["C19"], "factor_analysis", "            latent_z = self.update_z(X=X, y=y, latent_x=latent_x, latent_y=latent_y, latent_z=latent_z, n_acc=n_acc, f_acc=f_acc)\n        return (latent_y[0], latent_z[0])", "            latent_z = self.update_z(X=X, y=y, latent_x=latent_x, latent_y=latent_y, latent_z=latent_z, n_acc=n_acc, f_acc=f_acc)\n        return (latent_y[0], latent_z[0].copy())", "returned offset copied", kind="benign")
 
 # ----------------------------------------------------------------------------- C04
@@ -474,7 +474,7 @@ V("C04-estep-updates-machine", ["C04", "C19"], "gmm", "    statistics.sum_px = n
 V("C04-isv-U-not-stored", ["C04", "C12"], "factor_analysis", "                delayed_em_step = dask.delayed(self.m_step)(e_step_output)\n                self._U = dask.compute(delayed_em_step)[0]", "                delayed_em_step = dask.delayed(self.m_step)(e_step_output)\n                dask.compute(delayed_em_step)", "computed U never stored back in the Dask arm of ISV.fit")
 V("C04-numpy-arm-other-kernel", ["C04"], "kmeans", "                stats = [e_step(X, means=self.centroids_)]\n                self.centroids_, self.average_min_distance = m_step(stats, n_samples)", "                stats = accumulate_indices_means_vars(X, self.centroids_)\n                self.centroids_, self.average_min_distance = m_step([e_step(X, means=self.centroids_)], n_samples)", "an extra kernel in the in-memory arm only")
 V("C04-dask-arm-stale-arg", ["C04", "C06"], "kmeans", "                stats = [dask.delayed(e_step)(xx, means=self.centroids_) for xx in X]", "                stats = [dask.delayed(e_step)(xx, means=initial_centroids) for xx in X]", "Dask arm assigns against other centroids than the in-memory arm", may_be_undecided=True)
-V("C04-dask-tasks-filtered", ["C04", "C02"], "gmm", "                stats = [dask.delayed(e_step)(data=xx, machine=self) for xx in X]", "                stats = [dask.delayed(e_step)(data=xx, machine=self) for xx in X[:-1]]", "last block never processed")
+V("C04-dask-tasks-filtered", ["C04"], "gmm", "                stats = [dask.delayed(e_step)(data=xx, machine=self) for xx in X]", "                stats = [dask.delayed(e_step)(data=xx, machine=self) for xx in X[:-1]]", "last block never processed")
 V("C04-dask-partial-reduced", ["C04"], "kmeans", "self.centroids_, self.average_min_distance = dask.compute(dask.delayed(m_step)(stats, n_samples))[0]", "self.centroids_, self.average_min_distance = dask.compute(dask.delayed(m_step)(stats[1:], n_samples))[0]", "first block's statistics dropped before the M-step")
 V("C04-init-arms-crossed", ["C04", "C12"], "factor_analysis", "            f_acc = [dask.delayed(self._sum_f_statistics)(xx, yy, n_classes) for xx, yy in zip(ubm_projected_X, y)]", "            f_acc = [dask.delayed(self._sum_n_statistics)(xx, yy, n_classes) for xx, yy in zip(ubm_projected_X, y)]", "Dask arm accumulates zeroth-order statistics where first-order are needed")
 V("C04-update-y-role-crossed", ["C04", "C12", "C09"], "factor_analysis", "latent_x_i=latent_x[label], latent_z_i=latent_z[label]) for label, X_i in enumerate(X)]", "latent_x_i=latent_x[label], latent_z_i=latent_z[0]) for label, X_i in enumerate(X)]", "Dask arm uses class 0's offset for every class", may_be_undecided=True)
@@ -486,13 +486,13 @@ V("C12-tree-off-by-one", ["C12"], "ivector", TREE, "stats = [dask.delayed(operat
 V("C12-tree-carry-dropped", ["C12"], "ivector", "                    if length % 2 != 0:\n                        stats.append(last)\n", "", "odd carry dropped: with an odd number of partitions one is lost")
 V("C12-tree-carry-even", ["C12"], "ivector", "                    if length % 2 != 0:\n                        stats.append(last)", "                    if length % 2 == 0:\n                        stats.append(last)", "carry appended for even lengths (double counting)")
 V("C12-tree-carry-late", ["C12"], "ivector", "                    last = stats[-1]\n                    " + TREE, "                    " + TREE + "\n                    last = stats[-1]", "carry taken after the list was rebound")
-V("C12-tree-iadd", ["C12", "C19"], "ivector", TREE, "stats = [dask.delayed(operator.iadd)(stats[i], stats[length // 2 + i]) for i in range(length // 2)]", "pairs combined in place")
+V("C12-tree-iadd", ["C12"], "ivector", TREE, "stats = [dask.delayed(operator.iadd)(stats[i], stats[length // 2 + i]) for i in range(length // 2)]", "pairs combined in place")
 V("C12-tree-h-local", ["C12"], "ivector", "                    last = stats[-1]\n                    " + TREE, "                    last = stats[-1]\n                    h = length // 2\n                    stats = [dask.delayed(operator.add)(stats[i], stats[h + i]) for i in range(h)]", "half length bound to a local", kind="benign")
 V("C12-mstep-slice", ["C12", "C04"], "factor_analysis", "delayed_em_step = dask.delayed(self.m_step_u)(e_step_output)", "delayed_em_step = dask.delayed(self.m_step_u)(e_step_output[:-1])", "last class's accumulators dropped before the U M-step")
 V("C12-D-not-stored", ["C12", "C04", "C09"], "factor_analysis", "                delayed_em_step = dask.delayed(self.m_step_d)(e_step_output)\n                self._D = dask.compute(delayed_em_step)[0]", "                delayed_em_step = dask.delayed(self.m_step_d)(e_step_output)\n                dask.compute(delayed_em_step)", "computed D never stored")
 V("C12-V-stored-as-U", ["C12", "C04", "C09"], "factor_analysis", "                delayed_em_step = dask.delayed(self.m_step_v)(e_step_output)\n                self._V = dask.compute(delayed_em_step)[0]", "                delayed_em_step = dask.delayed(self.m_step_v)(e_step_output)\n                self._U = dask.compute(delayed_em_step)[0]", "computed V stored into U")
 V("C12-ivector-copyback-sigma", ["C12"], "ivector", "                for attr in ['T', 'sigma']:", "                for attr in ['T']:", "sigma never copied back from the computed machine")
-V("C12-ivector-estep-writes", ["C12", "C19"], "ivector", "    return stats\n\ndef m_step", "    machine.T = machine.T * 1.0\n    return stats\n\ndef m_step", "the per-partition E-step task writes the machine")
+V("C12-ivector-estep-writes", ["C12"], "ivector", "    return stats\n\ndef m_step", "    machine.T = machine.T * 1.0\n    return stats\n\ndef m_step", "the per-partition E-step task writes the machine")
 V("C12-stats-add-field", ["C12", "C02"], "ivector", "        result.nij = self.nij + other.nij\n", "", "IVectorStats.__add__ forgets the counts")
 V("C12-route-counter-late", ["C12"], "factor_analysis", "                class_id = y[i]\n                X[class_id].append(delayed_stat)\n                i += 1", "                i += 1\n                class_id = y[i - 1 if i < len(y) else 0]\n                X[class_id].append(delayed_stat)", "counter juggling", kind="skip")
 V("C12-route-skip", ["C12"], "factor_analysis", "                class_id = y[i]\n                X[class_id].append(delayed_stat)\n                i += 1", "                class_id = y[i]\n                if class_id >= 0:\n                    X[class_id].append(delayed_stat)\n                i += 1", "routing filtered by a condition")
@@ -506,7 +506,7 @@ V("C09-A1-minus-outer", ["C09"], "factor_analysis", "            id_plus_prod_v_
 V("C09-A2-no-residual", ["C09"], "factor_analysis", "            acc_V_A2 += fn_y_i[np.newaxis].T @ latent_y_i[:, np.newaxis].T", "            acc_V_A2 += f_acc_i.flatten()[np.newaxis].T @ latent_y_i[:, np.newaxis].T", "A2 uses the raw first-order statistics instead of the residual")
 V("C09-V-reshape-wrong", ["C09"], "factor_analysis", "self._V = V_c.reshape((self.ubm.n_gaussians * self.feature_dimension, self.r_V))", "self._V = V_c.reshape((self.ubm.n_gaussians, self.feature_dimension * self.r_V))", "V stored as (components, features*rank)")
 V("C09-U-split-wrong", ["C09"], "factor_analysis", "U_c = acc_U_A2.reshape(self.ubm.n_gaussians, self.feature_dimension, self.r_U) @ inv_A1", "U_c = acc_U_A2.reshape(self.feature_dimension, self.ubm.n_gaussians, self.r_U) @ inv_A1", "A2 split as (features, components, rank): rows of different components are mixed")
-V("C09-D-product", ["C09", "C15"], "factor_analysis", "self._D = acc_D_A2 / acc_D_A1", "self._D = acc_D_A2 * acc_D_A1", "D = A2 * A1", may_be_undecided=False)
+V("C09-D-product", ["C09"], "factor_analysis", "self._D = acc_D_A2 / acc_D_A1", "self._D = acc_D_A2 * acc_D_A1", "D = A2 * A1", may_be_undecided=False)
 V("C09-ustep-zero-y", ["C09"], "factor_analysis", "                e_step_output = self.e_step_u(X=X, y=y, n_samples_per_class=n_samples_per_class, latent_y=latent_y)", "                e_step_output = self.e_step_u(X=X, y=y, n_samples_per_class=n_samples_per_class, latent_y=None)", "U phase (in-memory arm) ignores the speaker factors")
 V("C09-finalize-u-early", ["C09"], "factor_analysis",
   "        latent_y = self.finalize_v(X=X, y=y, n_samples_per_class=n_samples_per_class, n_acc=n_acc, f_acc=f_acc)\n        for i in range(self.em_iterations):\n            logger.info('U Training: Iteration %d', i + 1)",
@@ -520,3 +520,6 @@ V("C09-dstep-stale-x", ["C09"], "factor_analysis", "                e_step_outpu
 V("C09-two-msteps", ["C09"], "factor_analysis", "                self.m_step_v([e_step_output])\n        latent_y", "                self.m_step_v([e_step_output])\n                self.m_step_v([e_step_output])\n        latent_y", "two M-steps on the same E-step statistics")
 V("C09-phase-iterations", ["C09"], "factor_analysis", "        for i in range(self.em_iterations):\n            logger.info('D Training", "        for i in range(self.em_iterations - 1):\n            logger.info('D Training", "D phase runs one pass fewer")
 V("C09-UProd-unscaled", ["C09", "C15"], "factor_analysis", "        UProd = UcT / sigma_c @ Uc", "        UProd = UcT @ Uc", "U' Sigma^-1 U computed without the covariances")
+V("C08-axes-wrong", ["C08", "C11"], "linear_scoring", "b = np.transpose(b, axes=(1, 2, 0))", "b = np.transpose(b, axes=(2, 1, 0))", "test-statistics factor transposed to (features, components, items): contraction pairs components with features")
+V("C08-tensordot-1", ["C08", "C11"], "linear_scoring", "return np.tensordot(a, b, 2)", "return np.tensordot(a, b, 1)", "contraction over one axis only")
+V("C08-variance-squared", ["C08", "C15", "C11"], "linear_scoring", "a = (models_means - ubm.means) / ubm.variances", "a = (models_means - ubm.means) / ubm.variances ** 2", "model offset divided by the squared variance")
